@@ -3,7 +3,7 @@ import math
 import numpy as np
 from hypothesis import strategies as st
 
-from vpm.core import Prop
+from vpm.core import Prop, ExhaustiveProp
 
 PROPERTY_ID = "C20"
 RULE = ("Rectangular layouts up to 5x4 over each domain's alphabet (GridWorld '. # s g x' with >=1 start; WindyGridWorld "
@@ -249,6 +249,24 @@ def prop_small(case, ctx):
     ctx.nontrivial(True)
 
 
+def all_small_gridworlds(tier):
+    """every layout over '.#sgx' with >=1 start cell: up to 4 cells in the quick tier, up to 6 cells (all shapes
+    w x h with w <= 5, h <= 4) in the thorough tier, x success probability in {0, 0.3, 1}"""
+    import itertools
+    max_cells = 6 if tier == "thorough" else 4
+    for h in range(1, 5):
+        for w in range(1, 6):
+            if w * h > max_cells:
+                continue
+            for cells in itertools.product(".#sgx", repeat=w * h):
+                if "s" not in cells:
+                    continue
+                rows = ["".join(cells[r * w:(r + 1) * w]) for r in range(h)]
+                for p in (0, 0.3, 1):
+                    yield {"rows": rows, "as_string": (len(rows) + w) % 2 == 0, "success_prob": p, "step_cost": -1,
+                           "feature_rewards": {"g": 5, "x": -10}, "absorbing": ["g"], "gamma": 0.95}
+
+
 def _kp_source_absorbing(case, msg):
     return "[source absorbing=True]" in msg
 
@@ -256,6 +274,8 @@ def _kp_source_absorbing(case, msg):
 KNOWN_PREDICATES = {"source_state_is_absorbing": _kp_source_absorbing}
 
 PROPS = [
+    ExhaustiveProp("gridworld_exhaustive", all_small_gridworlds, prop_gridworld,
+                   doc="ALL GridWorld layouts over '.#sgx' with <=4 cells (quick) / <=6 cells (thorough) x success_prob in {0,.3,1}"),
     Prop("gridworld", lambda tier: gridworld_cases(tier), prop_gridworld, quick=1200, thorough=60000,
          doc="GridWorld: generic well-formedness + one-step physics of every cell x action vs an own parser"),
     Prop("windy", lambda tier: windy_cases(tier), prop_windy, quick=600, thorough=30000,
